@@ -430,6 +430,16 @@ func checkNSNameFilter(c *Ctx) {
 		} else {
 			detail = "expected one loop over ids"
 		}
+		// the filter's own storage is fresh: neither collection aliases the caller's variadic slice
+		for _, b := range cf.Blocks {
+			for _, in := range b.Instrs {
+				if sl, isSl := in.(*ssa.Slice); isSl {
+					if _, fromParam := sl.X.(*ssa.Parameter); fromParam {
+						ok, detail = false, "the filter's entry list is built by re-slicing the caller's argument slice: later changes of that slice (or a second filter built from it) change what this filter accepts"
+					}
+				}
+			}
+		}
 		c.check(ok, "T-SHAPE(ctor)", "filter:NSName/full-vs-partial-routing", c.P.fnPos(cf), "", "filter.NSName: "+detail)
 	}
 }
